@@ -23,8 +23,9 @@ let body lines =
   List.iter (fun l ->
     if not !stopped then
     match words l with
-    | ["opt"; h; a] -> tbl := !tbl @ [(unhex h, a = "1")]; kinds := !kinds @ [KCustom]
-    | ["ropt"; h; k] -> tbl := !tbl @ [(unhex h, has_arg_of k)]; kinds := !kinds @ [kind_of k]
+    | ["opt"; h; a] -> tbl := !tbl @ [((unhex h, a = "1"), true)]; kinds := !kinds @ [KCustom]
+    | ["nopt"; h; a] -> tbl := !tbl @ [((unhex h, a = "1"), false)]; kinds := !kinds @ [KCustom]
+    | ["ropt"; h; k] -> tbl := !tbl @ [((unhex h, has_arg_of k), true)]; kinds := !kinds @ [kind_of k]
     | "parse" :: _ | ["parsenull"] ->
       let (nul, cl) = (match words l with ["parse"; h] -> (false, unhex h) | _ -> (true, [])) in
       let ((r, items), tgs) = run_cmdline_targets !tbl !kinds cl nul in
